@@ -153,13 +153,18 @@ def oracles(ctx: Ctx):
     cache = e2e.mk_cache([e2e.root_spec(4)])
     n = ctx.n(300, 2000)
     seen = {"nonce": set(), "ki": set(), "enc_cek": set(), "content": set()}
-    for _ in range(n):
+    import random as _random
+
+    for j in range(n):
+        if j % 2:
+            # a host application that seeds the (non-cryptographic) `random` module must not influence the library's draws
+            _random.seed(20240229)
         b = DPAPINGBlob.unpack(dpapi_ng.ncrypt_protect_secret(b"same", hostile.SID, root_key_identifier=e2e.RKID, cache=cache))
         vals = {"nonce": bytes(ASN1Reader(b.enc_content_parameters).read_sequence().read_octet_string()), "ki": bytes(b.key_identifier.key_info),
                 "enc_cek": bytes(b.enc_cek), "content": bytes(b.enc_content)}
         for k, v in vals.items():
             if v in seen[k]:
-                ctx.violation("failing-input", "oracle:fresh.real", {"unit": "fresh.real", "why": f"{k} repeated within {n} protect calls with identical arguments"},
+                ctx.violation("failing-input", "oracle:fresh.real", {"unit": "fresh.real", "why": f"{k} repeated within {n} protect calls with identical arguments (every second call after random.seed(constant) by the host)"},
                               key="fresh.real:" + k)
                 return
             seen[k].add(v)
